@@ -16,7 +16,8 @@ RULE = ('full product: every target string over {A,K} of length 0..L x every que
         'its (kind,target,query-set) tuple and non-trivial when the target is non-empty and at least one query occurs')
 ASSUMPTIONS = ['residue alphabet {A,K} forces overlapping occurrences; tags are numeric mass shifts 1,2',
                'a stretch contains a terminus only when it starts at 0 / ends at n (terminal mods are compared then)',
-               'order-insensitive containment is evaluated on peptides with residue modifications only']
+               'order-insensitive containment: a peptide is the multiset of its residues, each with its own modifications and, '
+               'for the first / last residue, the N- / C-terminal modifications']
 
 ALPHA = 'AK'
 GLOBALS = ['', '/2', '/2[+2Na+]', '/3', '/2[+Na+,+H+]', '<13C>', '<[1]@K>', '{Glycan:Hex}', '[Phospho]?']
@@ -310,27 +311,36 @@ def check(case, ctx):
         t, tm = case['t'], case['tm']
         n = len(t)
         tres = {i: [m] for i, m in enumerate(tm) if m}
-        ts = render(t, tres)
-        tbag = sorted((t[i], tm[i]) for i in range(n))
         ntrue = 0
-        for m in range(1, min(3, n + 1) + 1):
-            for q in _strings(m, m):
-                for qm in itertools.product((0, 1, 2), repeat=m):
-                    qs = render(q, {i: [x] for i, x in enumerate(qm) if x})
-                    qbag = sorted((q[i], qm[i]) for i in range(m))
-                    rest = list(tbag)
-                    exp = True
-                    for x in qbag:
-                        if x in rest:
-                            rest.remove(x)
-                        else:
-                            exp = False
-                            break
-                    ntrue += exp
-                    st, got = lib.call(p.is_subsequence, qs, ts, False)
-                    ctx.evals += 1
-                    if st != 'ok' or got is not exp:
-                        ctx.fail('is_subsequence-unordered', exp, got, call=['is_subsequence', qs, ts, False])
+
+        def units(seq, mods, nt, ct):
+            # a peptide as a multiset of (residue, own tag, N-terminal tag if first, C-terminal tag if last)
+            return sorted((seq[i], mods[i], nt if i == 0 else 0, ct if i == len(seq) - 1 else 0) for i in range(len(seq)))
+        for tnt, tct in (((0, 0), (3, 4), (3, 0), (0, 4)) if n <= 3 else ((0, 0),)):
+            ts = render(t, tres, [tnt] if tnt else None, [tct] if tct else None)
+            tbag = units(t, tm, tnt, tct)
+            for m in range(1, min(3, n + 1) + 1):
+                for q in _strings(m, m):
+                    for qm in itertools.product((0, 1, 2), repeat=m):
+                        for qnt, qct in (((0, 0), (3, 0), (0, 4), (3, 4)) if m == 1 else ((0, 0), (3, 0), (0, 4)) if m == 2 and (tnt or tct)
+                                         else ((0, 0),)):
+                            qs = render(q, {i: [x] for i, x in enumerate(qm) if x}, [qnt] if qnt else None,
+                                        [qct] if qct else None)
+                            qbag = units(q, qm, qnt, qct)
+                            rest = list(tbag)
+                            exp = True
+                            for x in qbag:
+                                if x in rest:
+                                    rest.remove(x)
+                                else:
+                                    exp = False
+                                    break
+                            ntrue += exp
+                            st, got = lib.call(p.is_subsequence, qs, ts, False)
+                            ctx.evals += 1
+                            if st != 'ok' or got is not exp:
+                                ctx.fail('is_subsequence-unordered', exp, got, call=['is_subsequence', qs, ts, False])
+        ts = render(t, tres)
         ctx.outcome = [ts, ntrue]
 
 
